@@ -438,6 +438,9 @@ void ts_lexer_start(Lexer *self) {
     if (self->current_position.bytes == 0) {
       if (self->data.lookahead == BYTE_ORDER_MARK) {
         ts_lexer__advance(&self->data, true);
+        // The mark is only skipped at the very start of the document, so the token that
+        // follows is tied to this position just like a token that asked for its column.
+        self->did_get_column = true;
       }
       ts_lexer__set_column_data(self, 0);
     }
